@@ -35,7 +35,7 @@ PROPS = {
                 rule="rapidcheck-generated histories of set/call by several callers to several owners with owner replies (result, error, duplicate, "
                      "forged id, another owner's id), timer expiry through the virtual clock, connects/disconnects of callers, owners and bystanders, "
                      "in the shipped and in a 4-slot routing-table configuration; every step is judged against the reference model (routed message at "
-                     "the owner only, payload equality, one final answer with the original id, unique routed ids). Non-trivial = at least one request "
+                     "the owner only, payload equality, one final answer with the original id, unique routed ids). 72 calls to one owner in single steps (routing-table overflow: every surplus request is answered with an error); Non-trivial = at least one request "
                      "was routed and concluded by reply, timeout or owner disconnect; in addition 2 (quick) / 3 (thorough) coverage-guided libFuzzer workers (fuzz/dfuzz.cpp, mode model: 5-byte records decoded into model-decidable operations with joins, same oracles, daemon in-process); in addition 2 (quick) / 3 (thorough) coverage-guided libFuzzer workers (fuzz/dfuzz.cpp, mode model: 5-byte records decoded into model-decidable operations with joins, same oracles, daemon in-process); distinct = scenario hash."),
     "C04": scen("c04", ["default", "default", "default", "tiny"],
                 quick=dict(cases=700, size=60), thorough=dict(cases=20000, size=90, budget_s=1500),
@@ -97,7 +97,7 @@ PROPS = {
                      "injected failures of fcntl/setsockopt/getsockname/epoll_ctl/timerfd_create/timerfd_settime, ended by closing all connections or by "
                      "SIGTERM with connections open; oracles: accounted heap, peer count, open descriptors, armed timers and live blocks equal the idle "
                      "baseline after close-all, nothing open/allocated after exit, exit status 0, descriptor-hygiene monitor silent, sanitizers silent. "
-                     "80 calls to one owner so that its routing table overflows; Non-trivial = >=3 connections, >=1 abnormal end or junk input, and >=1 routed request (timer) existed; distinct = scenario hash. "
+                     "80 calls to one owner so that its routing table overflows; once per scenario the allocator is exercised directly next to the cap (array allocations that do not fit must be refused); Non-trivial = >=3 connections, >=1 abnormal end or junk input, and >=1 routed request (timer) existed; distinct = scenario hash. "
                      "In addition 2 (quick) / 4 (thorough) coverage-guided libFuzzer workers (fuzz/dfuzz.cpp, the daemon in-process) apply the same baseline, "
                      "exit and hygiene oracles to byte-level generated sessions."),
     "C05": scen("c05", ["default"],
